@@ -13,7 +13,8 @@ META = dict(
          "handed over as bytearray objects (total <= 3 / 6) and with one bytearray object queued twice in a row; delivery "
          "must still be exact and the caller's objects unchanged afterwards; and with bufsize / .bs = 2, smaller than a "
          "message and than the backlog (total <= 4 / 7), and = 1, so that messages are exact multiples of it (total <= 3 / 6). "
-         "Client and ClientTls are also built with caller-supplied containers (txes= / rxbs= empty or already primed) and "
+         "Queues containing zero-length messages at every position (messages of 0-2 bytes, total <= 3 / 4) run on all six "
+         "transports. Client and ClientTls are also built with caller-supplied containers (txes= / rxbs= empty or already primed) and "
          "driven through the caller's own references. Two connections accepted by one real Server / ServerTls are "
          "driven together (messages queued alternately, every interleaving of their serviceTxes; and: one dies with data "
          "queued, a new one is accepted) with a per-connection oracle. Receive side: a "
@@ -28,9 +29,9 @@ import itertools
 
 from mc import core, net
 
-QUICK = dict(tx_total=6, tx_stalls=2, rx_total=6, rx_stalls=2, ba_total=3, smallbs_total=4, bs1_total=3, inject_total=3,
+QUICK = dict(tx_total=6, tx_stalls=2, rx_total=6, rx_stalls=2, ba_total=3, smallbs_total=4, bs1_total=3, inject_total=3, empty_total=3,
              pairs=(((2,), (2,)), ((1, 2), (2,))), pair_stalls=1)
-THOROUGH = dict(tx_total=9, tx_stalls=3, rx_total=9, rx_stalls=3, ba_total=6, smallbs_total=7, bs1_total=6, inject_total=5,
+THOROUGH = dict(tx_total=9, tx_stalls=3, rx_total=9, rx_stalls=3, ba_total=6, smallbs_total=7, bs1_total=6, inject_total=5, empty_total=4,
                 pairs=(((2,), (2,)), ((1, 2), (2,)), ((3,), (1, 2)), ((2, 1), (1, 2))), pair_stalls=2)
 ALPHABET = b"abcdefghijklmnopqrstuvwxyz"
 TRANSPORTS = ("Client", "ClientTls", "Incomer", "IncomerTls", "Driver", "DriverDeviceNb")
@@ -161,6 +162,17 @@ def shapes(total):
     return out
 
 
+def empty_shapes(total):
+    """Queues of 1-3 messages of 0-2 bytes that contain at least one EMPTY message."""
+    out = []
+    for n in (1, 2, 3):
+        for lens in itertools.product((0, 1, 2), repeat=n):
+            if 0 in lens and sum(lens) <= total:
+                out.append(lens)
+    out.sort(key=lambda l: (sum(l), len(l), l))
+    return out
+
+
 def messages(lens):
     out, i = [], 0
     for n in lens:
@@ -272,7 +284,7 @@ def tx_config(kind, lens, stalls, part, replay=None, form="bytes", bs=8096, inje
         part.outcome("tx %d stalls, %d sends" % (nst, len(answers)))
         if bad is not None:
             part.violation("%s.serviceTxes|%s" % (kind, bad[0]),
-                           "queue=%s%s answers=%s" % ("/".join(mm.decode() for mm in msgs),
+                           "queue=%s%s answers=%s" % ("/".join((mm.decode() or "''") for mm in msgs),
                                                       ("" if form == "bytes" else " (%s)" % form) +
                                                       ("" if bs == 8096 else " bs=%d" % bs) +
                                                       ("" if inject == "own" else " txes=%s" % inject), ",".join(answers)),
@@ -570,6 +582,9 @@ def configs(tier):
     for lens in ((1,), (2,), (3,), (2, 1), (3, 1)):       # first message queued twice as one object, then the rest
         for kind in TRANSPORTS:
             out.append(("tx", kind, lens, b["tx_stalls"], "twice"))
+    for lens in empty_shapes(b["empty_total"]):          # zero-length messages at every queue position
+        for kind in TRANSPORTS:
+            out.append(("tx", kind, lens, b["tx_stalls"], "bytes"))
     for kind in ("Client", "ClientTls"):         # caller-supplied containers (txes= / rxbs= constructor arguments)
         for inject in ("fresh", "primed"):
             for lens in shapes(b["inject_total"]):
